@@ -81,3 +81,12 @@ Fixpoint map_opt {A B} (f : A -> option B) (l : list A) : option (list B) :=
   | [] => Some []
   | x :: xs => match f x, map_opt f xs with Some y, Some ys => Some (y :: ys) | _, _ => None end
   end.
+
+Definition slice {A} (a b : Z) (l : list A) : list A := firstnz (b - a) (skipnz a l).
+
+(* pairwise distinct lists of code points *)
+Fixpoint distinct (l : list (list Z)) : bool :=
+  match l with
+  | [] => true
+  | x :: r => negb (existsb (list_eqb x) r) && distinct r
+  end.
